@@ -846,7 +846,16 @@ def replay_emitted(w):
 
 def emitted_tasks():
     from pyvc import emit
-    ts = all_visitor_tasks("C29", "C29.frame.emitted", emitted_writes_pred, replay_fn=replay_emitted)
+    from contracts.emit_common import visitors
+    from contracts import c03
+    ts = all_visitor_tasks("C29", "C29.frame.emitted", emitted_writes_pred, replay_fn=replay_emitted, only=[nm for nm, _m, _w in visitors() if nm != "For"])
+
+    def for_configure(I):
+        c03.record_frames(I)  # Node.find_all -> abstract descendants (otherwise most paths of visit_For end in an engine artefact)
+
+    for is_async in (False, True):
+        ts.append(EmitTask("C29", f"C29.frame.emitted.visit_For[{'async' if is_async else 'sync'}]", "jinja2.compiler:CodeGenerator.visit_For", N.For, emitted_writes_pred,
+                           mode="stmts", buffers=(None, "t_buf"), replay_fn=replay_emitted, configure=for_configure, env_fields={"is_async": is_async}, min_paths=50))
 
     def params(st):
         return {"args": st.alloc(HList(items=[emit.make_node(st, N.Name, "node.args[0]")]), initial=True),
@@ -869,12 +878,12 @@ def emitted_tasks():
         return {"names": st.alloc(HList(items=["n0", ("n1", "alias1")]), initial=True)}
 
     t = EmitTask("C29", "C29.frame.emitted.visit_FromImport", "jinja2.compiler:CodeGenerator.visit_FromImport", N.FromImport, emitted_writes_pred, mode="stmts",
-                 buffers=(None, "t_buf"), replay_fn=replay_emitted, node_fields=names, min_paths=2)
+                 buffers=(None, "t_buf"), replay_fn=replay_emitted, node_fields=names, configure=c03.install_sorted, min_paths=2)
     t.bound_text = "from-import with two imported names (one aliased)"
     ts.append(t)
     from contracts.emit_template import TemplateEmitTask
-    tt = TemplateEmitTask("C29", "C29.frame.emitted.visit_Template", template_writes_pred, replay_fn=replay_emitted, min_paths=2, n_blocks=2, n_imports=1)
-    tt.bound_text = "template with 2 blocks and 1 imported name (body abstract)"
+    tt = TemplateEmitTask("C29", "C29.frame.emitted.visit_Template", template_writes_pred, replay_fn=replay_emitted, min_paths=8, n_blocks=1, n_imports=1)
+    tt.bound_text = "template with 1 block and 1 imported name (body abstract)"
     ts.append(tt)
     return ts
 
@@ -897,3 +906,129 @@ def template_writes_pred(sc, tree, ph, txt):
         else:
             fails.append(f"unexpected module level statement {type(stmt).__name__}")
     return fails
+
+
+# =====================================================================================================================
+# C29.frame.filters  = C19.filters.frame (re-listed)
+# =====================================================================================================================
+
+class FiltersProxy(Task):
+    """Re-runs the filter frame obligations of contracts/c19.py (which themselves re-run the frame clauses of the filter contracts of
+    contracts/c22.py on the same real sources): every built-in filter writes only objects it allocated."""
+    kind = "vc"
+
+    def __init__(self, part, parts):
+        self.prop, self.part, self.parts = "C29", part, parts
+        self.name = f"C29.frame.filters[{part}]"
+
+    def inner(self):
+        from contracts import c19
+        ts = [t for t in c19.TASKS if t.name.startswith("C19.filters.frame")]
+        return [t for i, t in enumerate(ts) if i % self.parts == self.part]
+
+    def run(self, tier, seed):
+        res = []
+        try:
+            inner = self.inner()
+        except Exception as ex:
+            return [Res(self.name + ".engine", "unknown", "pyvc", 0, f"contracts.c19 unavailable: {type(ex).__name__}: {ex}", self.kind)]
+        bounds = []
+        for t in inner:
+            for r in t.run(tier, seed):
+                r.name = "C29.frame.filters." + r.name[len("C19.filters.frame."):] if r.name.startswith("C19.filters.frame.") else "C29.frame.filters." + r.name
+                if r.status == "refuted":
+                    fk = getattr(t, "finding_key", None)
+                    r.witness = {"_c19_task": t.name, "inner": r.witness, "key": (fk(r) if fk else None)}
+                res.append(r)
+            if getattr(t, "bound_text", None):
+                bounds.append(t.bound_text)
+        if bounds:
+            self.bound_text = "; ".join(sorted(set(bounds)))[:600]
+        return res or [Res(self.name + ".empty", "error", "pyvc", 0, "no inner obligations", self.kind)]
+
+    def finding_key(self, res):
+        return str((res.witness or {}).get("key"))
+
+    def replay(self, w):
+        for t in self.inner():
+            if t.name == (w or {}).get("_c19_task"):
+                return t.replay(w.get("inner") or {})
+        from contracts import c19
+        return c19.replay_native_frame({})
+
+
+# =====================================================================================================================
+# C29.bounded.histories
+# =====================================================================================================================
+
+def bounded_histories(part, parts):
+    def run(task, tier, seed):
+        from standins import c03_scoping as S
+        t0 = time.time()
+        fails = {}
+        names = [n for i, n in enumerate(TEMPLATES) if i % parts == part]
+        cases = 0
+        for is_async in (False, True):
+            use = [n for n in names if not (is_async and n == "t_cycler")]
+            for n, kind, det in history_problems(use, is_async=is_async, threads=0 if is_async else 4):
+                fails.setdefault((kind, n), det)
+            cases += len(use)
+        # generated corpus (scoping constructs, namespaces, macros, recursion): one shared environment
+        count = 60 if tier == "quick" else 600
+        progs = list(S.programs(7000 + 31 * seed + part, count, max_depth=2, max_stmts=3))
+        srcs = {f"gen{i}": S.source(p) for i, p in enumerate(progs)}
+        gen_data = lambda: {"a": 7, "b": [1, 2], "c": {"k": 1}, "tree": copy.deepcopy(S.TREE)}
+        for n, kind, det in history_problems(list(srcs), extra=srcs, threads=4, data_fn=gen_data):
+            fails.setdefault((kind, srcs[n]), det.replace(n + ":", repr(srcs[n]) + ":"))
+        cases += len(srcs)
+        task.bound_text = (f"{len(names)} hand-written templates (imports with cached modules, includes, inheritance, namespaces, loop state, filters that build new "
+                           f"containers; sync and async) and {count} generated statement trees per task: each rendered isolated, twice, after all others and from 4 threads "
+                           "(switch interval 1 microsecond) in one shared environment; data, environment globals and template globals deep-compared with a snapshot")
+        task.stats = {"templates": cases, "seconds": round(time.time() - t0, 1)}
+        rs = [Res(f"C29.bounded.histories[{part}]", "bounded-ok", "native", 0, f"{cases} templates x 4 histories agree with the isolated render; inputs unchanged", "bounded")]
+        for (kind, n), det in sorted(fails.items()):
+            rs.append(Res(f"C29.bounded.histories.{kind}", "refuted", "native", 0, det[:900], "bounded", {"key": f"{kind}:{n}", "template": n, "kind": kind}))
+        return rs
+    return run
+
+
+def replay_histories(w):
+    n = (w or {}).get("template")
+    if n in TEMPLATES:
+        ps = history_problems([n]) + history_problems([n], is_async=True, threads=0)
+    elif n:
+        ps = history_problems(["gen"], extra={"gen": n}, data_fn=lambda: {"a": 7, "b": [1, 2], "c": {"k": 1}})
+    else:
+        return native_histories(w)
+    return (bool(ps), "; ".join(p[2] for p in ps[:2]) or "repeatable")
+
+
+N_HIST = 3
+TASKS = (entry_tasks() + emitted_tasks() + [FiltersProxy(i, 3) for i in range(3)]
+         + [Bounded("C29", "C29.cache.immutable", cache_immutable, "bounded", replay_cache)]
+         + [Bounded("C29", f"C29.bounded.histories[{i}]", bounded_histories(i, N_HIST), "bounded", replay_histories) for i in range(N_HIST)])
+
+META = {
+    "level": "other",
+    "explanation": (
+        "Proof of mechanism for the sequential clauses. (1) Frame contracts (state.written within state.allocated, exceptional paths included) on the real "
+        "Template.render / render_async / generate / generate_async, TemplateExpression.__call__ and Environment.make_globals, with 'the dict that reaches "
+        "new_context is a fresh dict(*args, **kwargs)'; the same frame clause evaluated on the symbolic runs of the contracts of runtime.new_context, "
+        "Context.__init__/derived/call/get_all, Template.new_context/make_module(_async)/_get_default_module(_async) and TemplateModule.__init__ "
+        "(contracts c05/c04/c18), the only admitted write to a pre-existing object being the idempotent Template._module. (2) Emission contracts on every "
+        "visitor (all symbolic paths; Macro/CallBlock/FromImport/Template on stated shapes): generated code assigns only Python locals, context.vars / "
+        "exported_vars / blocks / eval_ctx, _loop_vars, _block_vars, buffers, derived-context temporaries and items of template variables (namespaces) - "
+        "never `environment`, a template or the globals. (3) Filter frames re-listed from C19/C22. (4) The cached default module is built once from no "
+        "variables (clause of C05's contract, same run). (5) Bounded native histories: repeated / interleaved / 4-thread renders vs. an isolated render with "
+        "deep snapshots. The thread clause is NOT decided (no concurrency model): the threaded histories are a probe only. C29.cache.immutable fails by "
+        "design for an exported namespace (known finding)."),
+    "assumptions": [
+        "A7 async iteration is modelled as collecting the stream; the render function's stream is two chunks in the entry contracts (the frame clause does not depend on it)",
+        "callables and objects supplied by the data (methods, __getattr__, __iter__) are outside the frame (property statement)",
+        "dict(*args, **kwargs) returns a new dict (dependency spec); ChainMap(d, g) does not copy or write d / g",
+        "the inner contracts of c05 / c04 / c18 / c19 model the pre-state of their functions faithfully (their own obligations)",
+        "no concurrency model: concurrent renders are only probed natively",
+    ],
+    "trusted_base": ["pyvc symbolic executor and emission engine", "z3 5.1", "contracts/c05.py, c04.py, c18.py, c19.py, c22.py (re-used symbolic runs)",
+                     "standins/c03_scoping.py generator"],
+}
